@@ -89,6 +89,7 @@ type FuncSpec struct {
 	GhostSets   []GhostSet // ghost updates executed at every return, before the postconditions are checked
 	BoundK      int        // bounded mode: loops without invariant unrolled BoundK times (0 = unbounded proof)
 	BoundD      int        // bounded mode: self-recursion inlined to this depth
+	InitPkgs    []string        // `initstate <pkg>`: verify in the state right after that package's initialiser has run
 	CallAsserts []CallAssert    // caller-side assertions at a particular call site: `atcall <callee> <n>: expr`
 	BoundAssume []Clause        // assumed at entry only when this function is itself checked in bounded mode (states the shape bound)
 	Unknown     map[string]bool // package-level variables whose (constant) initial value must not be used: both settings are verified
@@ -159,6 +160,7 @@ type FrameSpec struct {
 	NoDirectRead []string  // interface types whose Read method must not be invoked by in-repo code in the reach set
 	MapRangeOnly []string  // functions allowed to range over a map
 	HasMapRange  bool
+	MapWritesOnly []FrameRule // Fields = map type texts, Funcs = functions allowed to update/delete entries of maps of that type
 	GlobalReadsOnly []string // in-repo package-level variables of reference type (map, slice, pointer, chan, func, interface) that may be read
 	HasGlobalReads  bool
 	GlobalAddrOnly []string // callee name prefixes that may receive the address of a package-level variable
@@ -261,7 +263,7 @@ type parser struct {
 
 var itemKw = map[string]bool{"frame": true, "pred": true, "spec": true, "ghost": true, "lemma": true, "iface": true, "func": true, "extern": true, "axiom": true, "package": true}
 var clauseKw = map[string]bool{"requires": true, "ensures": true, "modifies": true, "reads": true, "panics": true, "decreases": true,
-	"checks": true, "inline": true, "trusted": true, "loop": true, "invariant": true, "pure": true, "returns": true, "nilable": true, "params": true, "nosafety": true, "fresh": true, "ghostset": true, "bounded": true, "unknown": true, "boundedassume": true, "atcall": true}
+	"checks": true, "inline": true, "trusted": true, "loop": true, "invariant": true, "pure": true, "returns": true, "nilable": true, "params": true, "nosafety": true, "fresh": true, "ghostset": true, "bounded": true, "unknown": true, "boundedassume": true, "atcall": true, "initstate": true}
 
 func (p *parser) peek() tok { return p.toks[p.p] }
 func (p *parser) next() tok { t := p.toks[p.p]; p.p++; return t }
@@ -468,6 +470,10 @@ func (p *parser) parseUnary() Expr {
 	if p.isOp("-") {
 		p.next()
 		return &EUnary{"-", p.parseUnary()}
+	}
+	if p.isOp("*") {
+		p.next()
+		return &EUnary{"*", p.parseUnary()}
 	}
 	return p.parsePostfix(p.parsePrimary())
 }
@@ -831,6 +837,14 @@ func parseSpecText(file, pkgPath, src string, sp *Specs) (err error) {
 				switch c := p.next().s; c {
 				case "roots":
 					fs.Roots = append(fs.Roots, readList()...)
+				case "mapwritesonly":
+					r := FrameRule{}
+					r.Fields = append(r.Fields, p.parseType())
+					if p.isId("in") {
+						p.next()
+						r.Funcs = readList()
+					}
+					fs.MapWritesOnly = append(fs.MapWritesOnly, r)
 				case "writesonly", "readsonly", "nocall":
 					r := FrameRule{Fields: readList()}
 					if p.isId("in") {
@@ -922,6 +936,8 @@ func parseSpecText(file, pkgPath, src string, sp *Specs) (err error) {
 					f.NoSafety = true
 				case "boundedassume":
 					f.BoundAssume = append(f.BoundAssume, p.parseClause())
+				case "initstate":
+					f.InitPkgs = append(f.InitPkgs, p.parseFuncRef2())
 				case "atcall":
 					ca := CallAssert{Callee: p.parseFuncRef2()}
 					if p.peek().k == "int" {
